@@ -521,7 +521,11 @@ class tridonic(hid):
                 else:
                     self._log.debug("Bus watch waiting for data, no timeout")
                     await self._bus_watch_data_available.wait()
-                self._bus_watch_data_available.clear()
+            # Reports that were queued while we were not waiting (for
+            # example during the connection handshake) have set the
+            # event too: clear it every time round, otherwise the next
+            # wait returns at once and is taken for a timeout
+            self._bus_watch_data_available.clear()
 
             # Figure out why we've woken up
             if len(self._bus_watch_data) == 0:
